@@ -36,6 +36,9 @@ def unquote(tok):
     return bytes(out)
 
 
+_ALIAS = []
+
+
 def build(r, nfilters, hostile):
     """returns (FiltersSet, placeholder FiltersSet, list of per-filter value lists, ok)"""
     fs, ph = FiltersSet("t"), FiltersSet("t")
@@ -46,7 +49,16 @@ def build(r, nfilters, hostile):
         vals = [gen_factory.hostile_value(r, gen_factory.PIECES if hostile else gen_factory.SAFE_PIECES) for _ in range(n)]
         pvals = ["p%dx%d" % (i, k) for k in range(n)]
         name = "f%d" % i
-        fs.addfilter(name, gen_factory.fill(conds, vals), gen_factory.fill(acts, vals), mt)
+        cd, ad = gen_factory.fill(conds, vals), gen_factory.fill(acts, vals)
+        fs.addfilter(name, cd, ad, mt)
+        if i % 2 == 0:
+            # the caller goes on using ITS lists (appends to them, empties them): the set holds what it was given when it was given
+            import aliasing
+            held = str(fs)
+            aliasing.scribble((cd, ad))
+            if str(fs) != held:
+                _ALIAS.append({"what": "the rendered set changed when the caller changed the lists it had passed to addfilter (no further call on the set)",
+                               "input": held[:600], "after": str(fs)[:600]})
         ph.addfilter(name, gen_factory.fill(conds, pvals), gen_factory.fill(acts, pvals), mt)
         allvals.append(dict(zip(pvals, vals)))
         names.append(name)
@@ -220,6 +232,8 @@ def run(ctx):
     import corr_factory
     fdiffs, fn, fclasses = corr_factory.run(rng("c06-factory"), 2500 if ctx.tier == "quick" else 40000)
     diffs += fdiffs
+    viol += _ALIAS
+    del _ALIAS[:]
     seen, uv = set(), []
     for v in viol:
         k = v["what"][:60]
